@@ -42,7 +42,17 @@ pub enum Role {
 
 #[derive(Clone, Debug, Serialize, Deserialize)]
 pub enum Mode {
-    Accounting { cfg: PoolCfg, dispatchers: Vec<Vec<Item>>, schedules: Vec<u64>, iters: usize, sched: Sched, stats_calls: usize },
+    Accounting {
+        cfg: PoolCfg,
+        dispatchers: Vec<Vec<Item>>,
+        schedules: Vec<u64>,
+        iters: usize,
+        sched: Sched,
+        stats_calls: usize,
+        /// fault: the consumer of the results goes away after dispatcher 0 handed over this many frames
+        #[serde(default)]
+        consumer_gone_after: Option<usize>,
+    },
     Affinity {
         kind: PoolKind,
         seg: Seg,
@@ -217,6 +227,9 @@ fn check_accounting(cfg: &PoolCfg, dispatchers: &[Vec<Item>], out: &pool::ExecOu
         PoolKind::Tls => "tls",
         PoolKind::Http => "http_request",
     };
+    // fault relaxation, narrow: once the consumer of results is gone nothing can be observed of the analysis,
+    // and workers stop at their next result; what remains decidable is that the counters match the outcomes
+    let observe_results = !out.consumer_gone;
     let mut got_id: BTreeMap<String, usize> = BTreeMap::new();
     for r in &out.results {
         for o in r {
@@ -227,7 +240,7 @@ fn check_accounting(cfg: &PoolCfg, dispatchers: &[Vec<Item>], out: &pool::ExecOu
     }
     for (id, n) in &expect_id {
         let g = *got_id.get(id).unwrap_or(&0);
-        if g < *n {
+        if g < *n && observe_results {
             return Err(Violation::new("queued-but-not-analysed", key, format!("{} dispatch(es) of the frame from {} returned Queued but {} {} result(s) arrived", n, id, g, ident_kind)));
         }
         if g > *n {
@@ -244,7 +257,7 @@ fn check_accounting(cfg: &PoolCfg, dispatchers: &[Vec<Item>], out: &pool::ExecOu
             return Err(Violation::new("dropped-but-analysed", key, format!("a {} result for {} arrived although no dispatch of it was Queued", ident_kind, id)));
         }
     }
-    if kind != PoolKind::Tls && out.results.len() != expect_count {
+    if kind != PoolKind::Tls && out.results.len() != expect_count && observe_results {
         return Err(Violation::new(if out.results.len() < expect_count { "queued-but-not-analysed" } else { "analysed-more-than-once" }, key, format!("{} frames were queued and analysable but {} results (empty ones included) were received", expect_count, out.results.len())));
     }
     // ---- statistics agree with the outcomes
@@ -281,7 +294,7 @@ fn check_accounting(cfg: &PoolCfg, dispatchers: &[Vec<Item>], out: &pool::ExecOu
         }
     }
     // queue_size == 0 once everything was consumed: decidable only when every queued frame yields a result
-    if kind != PoolKind::Tls && out.received_before_stats >= expect_count && queued as usize == expect_count {
+    if kind != PoolKind::Tls && observe_results && out.received_before_stats >= expect_count && queued as usize == expect_count {
         for (w, (qs, _)) in s.workers.iter().enumerate() {
             if *qs != 0 {
                 return Err(Violation::new("stats-queue-size", key, format!("every expected result was received but stats() says worker {} still has {} queued", w, qs)));
@@ -451,13 +464,16 @@ impl Prop for C18 {
         let iters = tier.pick(8, 20);
         let schedules = (0..n_sched).map(|_| r.next_u64()).collect();
         let sched = if tier == Tier::Thorough && r.chance(1, 4) { Sched::Pct(r.urange(2, 3)) } else { Sched::Random };
-        Scn { mode: Mode::Accounting { cfg, dispatchers, schedules, iters, sched, stats_calls: r.urange(0, 4) } }
+        let stats_calls = r.urange(0, 4);
+        // fault, one scenario in six: the consumer of results goes away in the middle of dispatching
+        let consumer_gone_after = if r.chance(1, 6) { Some(r.usize_below(per + 1)) } else { None };
+        Scn { mode: Mode::Accounting { cfg, dispatchers, schedules, iters, sched, stats_calls, consumer_gone_after } }
     }
 
     fn run(s: &Scn, st: &mut RunStats) -> Result<(), Violation> {
         match &s.mode {
-            Mode::Accounting { cfg, dispatchers, schedules, iters, sched, stats_calls } => {
-                let plan = Arc::new(ExecPlan { via_analyzer: false, cfg: cfg.clone(), dispatchers: dispatchers.iter().map(|d| d.iter().map(|i| i.frame.clone()).collect()).collect(), stats_calls: *stats_calls, wait_for: Some(expected_wait(cfg, dispatchers)) });
+            Mode::Accounting { cfg, dispatchers, schedules, iters, sched, stats_calls, consumer_gone_after } => {
+                let plan = Arc::new(ExecPlan { via_analyzer: false, cfg: cfg.clone(), dispatchers: dispatchers.iter().map(|d| d.iter().map(|i| i.frame.clone()).collect()).collect(), stats_calls: *stats_calls, wait_for: Some(expected_wait(cfg, dispatchers)), consumer_gone_after: *consumer_gone_after });
                 st.evals = 0;
                 let mut seen_q = false;
                 let mut seen_d = false;
@@ -473,6 +489,9 @@ impl Prop for C18 {
                     st.schedules_seen.push(out.chan.hash);
                     seen_q |= out.outcomes.iter().flatten().any(|q| *q);
                     seen_d |= out.outcomes.iter().flatten().any(|q| !*q);
+                    if out.consumer_gone {
+                        st.fault("result_consumer_gone");
+                    }
                     check_accounting(cfg, dispatchers, &out, st)?;
                   }
                 }
@@ -588,34 +607,34 @@ fn shrink_impl(s: &Scn) -> Vec<Scn> {
     {
         let mut out = vec![];
         match &s.mode {
-            Mode::Accounting { cfg, dispatchers, schedules, iters, sched, stats_calls } => {
+            Mode::Accounting { cfg, dispatchers, schedules, iters, sched, stats_calls, consumer_gone_after } => {
                 let iters = *iters;
                 if schedules.len() > 1 {
                     for sd in schedules {
-                        out.push(Scn { mode: Mode::Accounting { cfg: cfg.clone(), dispatchers: dispatchers.clone(), schedules: vec![*sd], iters, sched: *sched, stats_calls: *stats_calls } });
+                        out.push(Scn { mode: Mode::Accounting { cfg: cfg.clone(), dispatchers: dispatchers.clone(), schedules: vec![*sd], iters, sched: *sched, stats_calls: *stats_calls, consumer_gone_after: *consumer_gone_after } });
                     }
                 }
                 if dispatchers.len() > 1 {
                     for i in 0..dispatchers.len() {
                         let mut d = dispatchers.clone();
                         d.remove(i);
-                        out.push(Scn { mode: Mode::Accounting { cfg: cfg.clone(), dispatchers: d, schedules: schedules.clone(), iters, sched: *sched, stats_calls: *stats_calls } });
+                        out.push(Scn { mode: Mode::Accounting { cfg: cfg.clone(), dispatchers: d, schedules: schedules.clone(), iters, sched: *sched, stats_calls: *stats_calls, consumer_gone_after: *consumer_gone_after } });
                     }
                 }
                 for i in 0..dispatchers.len() {
                     for k in (0..dispatchers[i].len()).rev() {
                         let mut d = dispatchers.clone();
                         d[i].remove(k);
-                        out.push(Scn { mode: Mode::Accounting { cfg: cfg.clone(), dispatchers: d, schedules: schedules.clone(), iters, sched: *sched, stats_calls: *stats_calls } });
+                        out.push(Scn { mode: Mode::Accounting { cfg: cfg.clone(), dispatchers: d, schedules: schedules.clone(), iters, sched: *sched, stats_calls: *stats_calls, consumer_gone_after: *consumer_gone_after } });
                     }
                 }
                 if *stats_calls > 0 {
-                    out.push(Scn { mode: Mode::Accounting { cfg: cfg.clone(), dispatchers: dispatchers.clone(), schedules: schedules.clone(), iters, sched: *sched, stats_calls: 0 } });
+                    out.push(Scn { mode: Mode::Accounting { cfg: cfg.clone(), dispatchers: dispatchers.clone(), schedules: schedules.clone(), iters, sched: *sched, stats_calls: 0, consumer_gone_after: *consumer_gone_after } });
                 }
                 if cfg.workers > 1 {
                     let mut c = cfg.clone();
                     c.workers -= 1;
-                    out.push(Scn { mode: Mode::Accounting { cfg: c, dispatchers: dispatchers.clone(), schedules: schedules.clone(), iters, sched: *sched, stats_calls: *stats_calls } });
+                    out.push(Scn { mode: Mode::Accounting { cfg: c, dispatchers: dispatchers.clone(), schedules: schedules.clone(), iters, sched: *sched, stats_calls: *stats_calls, consumer_gone_after: *consumer_gone_after } });
                 }
             }
             Mode::Affinity { kind, seg, variants, base_framing, must_differ_ok, all_patch, byte_variants } => {
